@@ -374,7 +374,7 @@ ORDER_INSENSITIVE_CALLS = {"sorted", "len", "set", "frozenset", "sum", "any", "a
 
 # sites the classifier cannot decide, confirmed by reading (key: "qual|iterable text")
 HASHORD_TABLE = {
-    "ContractionProcessor.simplify_hadamard|hadamards":
+    "ContractionProcessor.simplify_hadamard":
         "set of frozensets of *integer* index ids (the processor maps labels to ints in order "
         "of first appearance), so hashing and hence iteration order is seed-independent",
 }
@@ -495,7 +495,7 @@ def rule_hashord(ctx):
                 if cons == "none":
                     continue
                 kind = _element_kind(ctx, f, n)
-                tkey = f"{f.qual}|{C.unparse(n, 60)}"
+                tkey = f.qual  # one reasoned exemption per function, independent of local names
                 key = ctx.key(f, "C17-HASHORD", C.unparse(n, 40))
                 where = C.loc(f, n)
                 if cons == "insensitive":
